@@ -312,7 +312,7 @@ def cases(tier, seed):
             cs.append(case(k, ("aligned", "nonaligned", "short"), 1, 0, 1, 0))
         cs.append(case("uniform", ("short", "wide", "aligned"), 3, 2))
         cs.append(case("bestbatch", ("short",), 1, 3))
-        cs.append(case("bestbatch", ("nonaligned", "short"), 1, 2))
+        cs.append(case("bestbatch", ("nonaligned", "short"), 1, 2, ncalls=1))
         cs.append(case("bestbatch", ("wide",), 1, 3))
         for k in ("cors", "xgb", "rf", "gp-mean"):
             cs.append(case(k, ("short",), 2, 3))
